@@ -216,21 +216,31 @@ fn destructor_faults(model: &[(i64, u32)], rng: &mut Rng, o: &mut Outcome, step:
         for id in 0..cnt {
             m.insert(key(2, id as u32), V::new(id as i64));
         }
-        let panicked = armed(&mut || m.clear());
+        let sub = rng.below(3);
+        let panicked = match sub {
+            0 => armed(&mut || m.clear()),
+            1 => armed(&mut || m.retain(|_, v| v.val % md != 0)),
+            _ => armed(&mut || {
+                // values replaced through the entry / insert API: the old value is dropped by the caller
+                for id in 0..cnt {
+                    let _old = m.insert(key(2, id as u32), V::new(1000 + id as i64));
+                }
+            }),
+        };
         if panicked {
             o.bump("fault.panic_in_destructor", 1);
         }
         let held: Vec<(u32, u64)> = m.iter().map(|(k, v)| (k.id, v.serial)).collect();
         if let Some((id, _)) = held.iter().find(|(_, sr)| !live(*sr)) {
-            return Err(format!("step {step}: after a panic in the {nth}-th destructor inside SmallMap::clear of {cnt} entries the map still holds key {id}, whose value has been dropped"));
+            return Err(format!("step {step}: after a panic in the {nth}-th destructor inside SmallMap::clear / retain / insert (scenario {sub}) of {cnt} entries the map still holds key {id}, whose value has been dropped"));
         }
         if m.len() != held.len() {
-            return Err(format!("step {step}: after a panic in a destructor inside SmallMap::clear len() = {} but iteration yields {}", m.len(), held.len()));
+            return Err(format!("step {step}: after a panic in a destructor inside SmallMap::clear / retain / insert (scenario {sub}) len() = {} but iteration yields {}", m.len(), held.len()));
         }
         for id in 0..cnt as u32 {
             let by_key = m.get(&key(2, id)).is_some();
             if by_key != held.iter().any(|(h, _)| *h == id) {
-                return Err(format!("step {step}: after a panic in a destructor inside SmallMap::clear of {cnt} entries lookup of key {id} says {by_key}, iteration says the opposite"));
+                return Err(format!("step {step}: after a panic in a destructor inside SmallMap::clear / retain / insert (scenario {sub}) of {cnt} entries lookup of key {id} says {by_key}, iteration says the opposite"));
             }
         }
         drop(m);
